@@ -459,6 +459,9 @@ func clearDir(d string) {
 		return
 	}
 	for _, e := range es {
+		if keepFriends && e.Name() == ptttype.FN_VISIBLE {
+			continue
+		}
 		must(os.RemoveAll(filepath.Join(d, e.Name())))
 	}
 }
@@ -501,7 +504,7 @@ func setBoard(b brd, now types.Time4) {
 	if b.bm {
 		cache.Shm.Shm.BMCache[i] = [ptttype.MAX_BMs]ptttype.UID{theUID, -1, -1, -1}
 	}
-	if b.friend {
+	if b.friend && !keepFriends {
 		cache.Shm.Shm.Hbfl[i][1] = theUID
 	}
 	banFile := env.Path("home", theID[:1], theID, "banned", "b_"+b.name)
@@ -520,6 +523,10 @@ func setBoard(b brd, now types.Time4) {
 	}
 }
 
+// keepFriends: during a friend-list history the list file and the shared-memory list of the boards survive the
+// re-materialisation of everything else.
+var keepFriends bool
+
 // materialise puts the private BBSHOME / SHM into exactly the state the row describes.
 func materialise(r row, word types.Time4, setWord bool) *ptttype.UserecRaw {
 	now := types.NowTS()
@@ -528,8 +535,10 @@ func materialise(r row, word types.Time4, setWord bool) *ptttype.UserecRaw {
 		h := &cache.Shm.Shm.BCache[i]
 		h.BrdAttr, h.Level, h.PostLimitLogins, h.PostLimitBadpost, h.NUser = 0, 0, 0, 0, 0
 		cache.Shm.Shm.BMCache[i] = [ptttype.MAX_BMs]ptttype.UID{-1, -1, -1, -1}
-		cache.Shm.Shm.Hbfl[i] = [ptttype.MAX_FRIEND + 1]ptttype.UID{}
-		cache.Shm.Shm.Hbfl[i][0] = ptttype.UID(now)
+		if !keepFriends {
+			cache.Shm.Shm.Hbfl[i] = [ptttype.MAX_FRIEND + 1]ptttype.UID{}
+			cache.Shm.Shm.Hbfl[i][0] = ptttype.UID(now)
+		}
 		cache.Shm.Shm.Total[i] = 0
 		cache.Shm.Shm.LastPostTime[i] = 0
 		cache.Shm.Shm.NBottom[i] = 0
@@ -911,6 +920,193 @@ func execFlood(line string, nu int32, k int, bc bool) {
 	}
 }
 
+// ---- friend-list histories -----------------------------------------------------------------------------
+
+var friendNames = map[string]string{"u": theID, "U": theID + "   the author", "c": "CodingMan", "p": "pichu", "k": "Kahou",
+	"g": "guest", "G": "GUEST", "z": "nosuchuser", "e": " leading-blank"}
+
+// pNames: the names of a list, expanded.
+func pNames(s string) ([]string, bool) {
+	if s == "-" {
+		return nil, true
+	}
+	var out []string
+	for _, t := range strings.Split(s, ",") {
+		parts := strings.Split(t, "*")
+		if _, ok := friendNames[parts[0]]; !ok || len(parts) > 2 {
+			return nil, false
+		}
+		n := uint64(1)
+		if len(parts) == 2 {
+			var ok bool
+			if n, ok = pNat(parts[1], 3, 120); !ok || n == 0 {
+				return nil, false
+			}
+		}
+		for j := uint64(0); j < n; j++ {
+			out = append(out, parts[0])
+		}
+	}
+	return out, true
+}
+
+type fstep struct {
+	kind  byte // L W X D P
+	names []string
+}
+
+func pSteps(s string) ([]fstep, bool) {
+	var out []fstep
+	nP := 0
+	for _, t := range strings.Split(s, "/") {
+		switch {
+		case t == "X" || t == "D" || t == "P":
+			out = append(out, fstep{kind: t[0]})
+			if t == "P" {
+				nP++
+			}
+		case strings.HasPrefix(t, "L:") || strings.HasPrefix(t, "W:"):
+			if strings.Count(t, ":") != 1 {
+				return nil, false
+			}
+			ns, ok := pNames(t[2:])
+			if !ok {
+				return nil, false
+			}
+			out = append(out, fstep{kind: t[0], names: ns})
+		default:
+			return nil, false
+		}
+	}
+	return out, len(out) <= 24 && nP >= 1
+}
+
+// listed: P̂'s reading of "the user is on the friend list": among the first MAX_FRIEND names of the list that
+// denote an account other than guest.
+func listed(names []string) bool {
+	n := 0
+	for _, x := range names {
+		switch x {
+		case "g", "G", "z", "e":
+			continue
+		}
+		if n >= int(ptttype.MAX_FRIEND) {
+			break
+		}
+		n++
+		if x == "u" || x == "U" {
+			return true
+		}
+	}
+	return false
+}
+
+func execFriends(line, op, kind string, steps []fstep) {
+	r := baseRow()
+	b := &r.s
+	if op == "crosspost" {
+		b = &r.t
+	}
+	if kind == "hidden" {
+		b.attr = aHIDE | aPOSTMASK
+	} else {
+		b.attr = aRESTRICTED
+	}
+	keepFriends = false
+	materialise(r, 0, true)
+	keepFriends = true
+	defer func() { keepFriends = false }()
+	bi := int(bidOf(b.name)) - 1
+	listFile := filepath.Join(boardDir(b.name), ptttype.FN_VISIBLE)
+	writeList := func(names []string) {
+		var sb strings.Builder
+		for _, n := range names {
+			sb.WriteString(friendNames[n])
+			sb.WriteByte('\n')
+		}
+		must(os.WriteFile(listFile, []byte(sb.String()), 0o644))
+	}
+	// P̂'s own bookkeeping: the list as of the last (re)load
+	var file, loaded []string
+	haveFile, expired, removed := false, false, false
+	var outs []string
+	type pj struct {
+		res, trace string
+		friend     bool // on the list as last loaded, or on the list file as it is now
+		removed    bool // not a friend because the list that was loaded last no longer existed
+	}
+	var judged []pj
+	for _, st := range steps {
+		switch st.kind {
+		case 'L':
+			writeList(st.names)
+			cache.HbflReload(ptttype.BidInStore(bi))
+			file, haveFile, loaded, expired, removed = st.names, true, st.names, false, false
+		case 'W':
+			writeList(st.names)
+			file, haveFile = st.names, true
+		case 'X':
+			cache.Shm.Shm.Hbfl[bi][0] = ptttype.UID(types.NowTS() - types.Time4(ptttype.HBFLexpire) - 100)
+			expired = true
+		case 'D':
+			_ = os.Remove(listFile)
+			cache.HbflReload(ptttype.BidInStore(bi))
+			file, haveFile, loaded, expired, removed = nil, false, nil, false, true
+		case 'P':
+			if expired {
+				// the look-up inside the operation loads the list again
+				if haveFile {
+					loaded, removed, expired = file, false, false
+				} else {
+					loaded, removed, expired = nil, true, false
+				}
+			}
+			u := materialise(r, 0, true)
+			before := snapshot()
+			res := callOp(op, r, u)
+			trace := "same"
+			if snapshot() != before {
+				trace = "changed"
+			}
+			outs = append(outs, res+":"+trace)
+			judged = append(judged, pj{res, trace, listed(loaded) || (haveFile && listed(file)), removed})
+		}
+	}
+	i := run.Op(line, strings.Join(outs, ","), "friends:"+op+":"+kind, true)
+	for n, j := range judged {
+		rr := r
+		if op == "crosspost" {
+			rr.t.friend = j.friend
+		} else {
+			rr.s.friend = j.friend
+		}
+		if j.res == "PANIC" || j.res == "TIMEOUT" {
+			run.Fail(i, "crash:"+op, fmt.Sprintf("write %d of the history: %s (%s)", n+1, j.res, hx.LastPanic))
+			continue
+		}
+		bb := rr.s
+		if op == "crosspost" {
+			bb = rr.t
+		}
+		viol := clausesViolated(rr, bb, op == "editpost")
+		if j.res == "ok" {
+			for _, c := range viol {
+				key := c
+				if op == "crosspost" && c == "read" {
+					key = "target-read"
+				}
+				if j.removed && (c == "restrictedpost" || c == "read") {
+					run.Fail(i, "stale-friendlist:file-removed", fmt.Sprintf("write %d of the history: %s accepted by the friends-only rule (%s) although the board's friend list file had been removed before the last load", n+1, op, c))
+					continue
+				}
+				run.Fail(i, "missing:"+op+":"+key, fmt.Sprintf("write %d of the history: %s accepted although the user is neither on the board's friend list as last loaded nor on the list file (clause %q)", n+1, op, c))
+			}
+		} else if j.trace == "changed" && j.res != "err:lookup" {
+			run.Fail(i, "refused-sideeffect:"+op, fmt.Sprintf("write %d of the history refused (%s) but left a trace", n+1, j.res))
+		}
+	}
+}
+
 func execLine(line string) {
 	ws := strings.Fields(line)
 	bad := func() { run.Op(line, "bad-op", "bad-op", false) }
@@ -924,6 +1120,17 @@ func execLine(line string) {
 		return
 	}
 	switch {
+	case ws[1] == "friends":
+		if len(ws) != 5 || !ops[ws[2]] || (ws[3] != "restricted" && ws[3] != "hidden") {
+			bad()
+			return
+		}
+		steps, ok := pSteps(ws[4])
+		if !ok {
+			bad()
+			return
+		}
+		execFriends(line, ws[2], ws[3], steps)
 	case ws[1] == "flood":
 		if len(ws) != 5 {
 			bad()
@@ -983,7 +1190,7 @@ func execLine(line string) {
 // implFacts: the same line the Lean driver prints from Gen/WriteGuards.lean; here the claims are constants —
 // a source change that invalidates one makes the two lines differ.
 func implFacts() string {
-	return "newPostDelegates=true postperm2=true guardsFirst=true,true,true,true"
+	return fmt.Sprintf("newPostDelegates=true postperm2=true hbflReplaces=true hbflMissingKeeps=false maxFriend=%d guardsFirst=true,true,true,true", int(ptttype.MAX_FRIEND))
 }
 
 func main() {
